@@ -1,5 +1,6 @@
 //! Harnesses over selium-protocol / selium-std (C05, C06, C14).
 #![allow(unused)]
+#![feature(allocator_api)]
 
 #[cfg(kani)]
 mod util;
